@@ -394,8 +394,19 @@ func ruleDeclaredType(c *core.Ctx) {
 				if !ok || (bo.Op != token.EQL && bo.Op != token.NEQ) {
 					continue
 				}
-				x, y := core.Canon(bo.X), core.Canon(bo.Y)
-				if (isDecl(bo.X) && y == ssa.Value(f.Params[idx])) || (isDecl(bo.Y) && x == ssa.Value(f.Params[idx])) {
+				// the parameter itself or its tuple-wrapped form "(" + p + ")"
+				var isParam func(v ssa.Value) bool
+				isParam = func(v ssa.Value) bool {
+					v = core.Canon(v)
+					if v == ssa.Value(f.Params[idx]) {
+						return true
+					}
+					if add, ok := v.(*ssa.BinOp); ok && add.Op == token.ADD {
+						return isParam(add.X) || isParam(add.Y)
+					}
+					return false
+				}
+				if (isDecl(bo.X) && isParam(bo.Y)) || (isDecl(bo.Y) && isParam(bo.X)) {
 					return true
 				}
 			}
@@ -424,6 +435,18 @@ func ruleDeclaredType(c *core.Ctx) {
 		}
 		if f := cc.StaticCallee(); f != nil && f.Name() == "ReadString" {
 			return true
+		}
+		// a helper of the package that is handed the value written and returns its
+		// signature (encodeProperty(newValue) (sig, data, err))
+		if f := cc.StaticCallee(); f != nil && f.Pkg == fn.Pkg && len(fn.Params) > 0 {
+			if b, isB := v.Type().Underlying().(*types.Basic); isB || v.Type() != nil {
+				_ = b
+			}
+			for _, a := range cc.Args {
+				if core.Canon(a) == ssa.Value(fn.Params[len(fn.Params)-1]) {
+					return true
+				}
+			}
 		}
 		return false
 	}
